@@ -131,9 +131,10 @@ def model_eval_chunks(chunks, timeout=900, procs=16):
     import concurrent.futures as cf
     if not chunks:
         return []
-    k = min(procs, len(chunks))
-    groups = [''.join(chunks[i::k]) for i in range(k)]
-    with cf.ThreadPoolExecutor(k) as ex:
+    # dynamic scheduling: small groups handed to a pool of workers, so that one slow grammar does not hold back a whole share
+    per = max(1, len(chunks) // (procs * 8))
+    groups = [''.join(chunks[i:i + per]) for i in range(0, len(chunks), per)]
+    with cf.ThreadPoolExecutor(procs) as ex:
         outs = list(ex.map(lambda t: model_eval(t, timeout), groups))
     return [ln for o in outs for ln in o]
 
